@@ -507,25 +507,45 @@ theorem lbf_obs_bounds_cover (cfg : Cfg) (A L : Nat) (o : Obs) :
 example : BInv ⟨5, 1, 7, true, true, 0⟩ 2 2
       ⟨[⟨0, (1, 1), 1, false⟩, ⟨1, (1, 2), 2, false⟩], [⟨0, (2, 2), 3, false⟩, ⟨1, (3, 0), 4, true⟩], 0⟩ ∧
     ([4, 5] : List Nat).length = 2 ∧ (∀ a ∈ ([4, 5] : List Nat), a < 6) ∧ (0 : Int) ≤ 0 ∧ (0 : Int) < 7 := by decide
+/-! NOTE on what the membership theorems of this section do and do not cover (audits r4 #6, r5 #6, r6 #8): the dtype tag of every leaf
+is written by `toNValue` (by construction) — a wrong dtype in the real code cannot falsify `….valid (toNValue …) = true`; dtypes and
+field order of the real observations are compared by the `lbf.spec` / `lbf.state` ops (`nvalue`: field order, shape, dtype, data) and
+`jax.eval_shape` in the sweeps.  Shapes are READ OFF the value by `toNValue` (widths off the first row): see `…_obs_valid_only`. -/
+
 /-! #### (wave 4) membership in the DECLARED specs: structure, shapes, dtypes and bounds -/
 open Sp PzS PkS MaS
 
 /-- the model's `obsSpec` / `actionSpec` / reward and discount specs ARE the specs generated from the real spec objects
 (Gen/Specs.lean) for the two catalogue configurations: `LevelBasedForaging(RandomGenerator(grid_size=6, num_agents=2, num_food=2,
-fov=2), time_limit=8)` (vector observer: `agents_view` (2, 12) int32 in `[−1, 6]`) — all leaves — and the grid-observer
-configuration (grid 7, 3 agents, 2 foods, fov 7, time_limit 6) — `action_mask` and `step_count`; its `agents_view` leaf
-(3·3·15·15 = 2025 elements) is beyond the 160-element cut of the generated table and is compared with the real spec object at
-run time by the `lbf.spec` op in every C09 / C12 sweep -/
+fov=2), time_limit=8)` (vector observer: `agents_view` (2, 12) int32 in `[−1, 6]`) and the grid-observer configuration (grid 7,
+3 agents, 2 foods, fov 7, time_limit 6) — all leaves of both (the `lbf.spec` op also compares them with the real spec objects at
+run time in every C09 / C12 sweep).
+(audit r6 #3) The generated table now holds every leaf whose BOUNDS are small, so the `lbf-grid` conjunct is about the WHOLE
+`obsSpec` (its `agents_view` leaf (3, 3, 15, 15) included; it used to be `.tail`).  In both catalogue configurations the maximum
+`max(A·L, L, grid_size)` of `agents_view` is the grid size; the two SPEC-ONLY configurations have `A·L > grid_size`: vector observer
+`RandomGenerator(grid_size=7, num_agents=3, num_food=2, fov=2, max_agent_level=3)`, limit 11 (`agents_view` (3, 15) in `[−1, 9]`), and
+grid observer `RandomGenerator(grid_size=6, num_agents=2, num_food=1, fov=3, max_agent_level=4)`, limit 9 (`agents_view` (2, 3, 7, 7) in
+`[0, 8]`) — a `specMax := gridSize` fails both -/
 theorem lbf_obsSpec_generated :
     prefixed "observation_spec." (obsSpec ⟨6, 2, 8, false, true, 0⟩ 2 2 2) = declared "lbf-6x2" "observation_spec." ∧
-    prefixed "observation_spec." ((obsSpec ⟨7, 7, 6, true, true, 0⟩ 3 2 2).tail) = declared "lbf-grid" "observation_spec." ∧
+    prefixed "observation_spec." (obsSpec ⟨7, 7, 6, true, true, 0⟩ 3 2 2) = declared "lbf-grid" "observation_spec." ∧
     [("action_spec", actionSpec 2)] = declared "lbf-6x2" "action_spec" ∧
     [("action_spec", actionSpec 3)] = declared "lbf-grid" "action_spec" ∧
     [("reward_spec", rewardSpecN 2)] = declared "lbf-6x2" "reward_spec" ∧
     [("reward_spec", rewardSpecN 3)] = declared "lbf-grid" "reward_spec" ∧
     [("discount_spec", discountSpecN 2)] = declared "lbf-6x2" "discount_spec" ∧
-    [("discount_spec", discountSpecN 3)] = declared "lbf-grid" "discount_spec" := by
-  refine ⟨by decide, by decide, by decide, by decide, by decide, by decide, by decide, by decide⟩
+    [("discount_spec", discountSpecN 3)] = declared "lbf-grid" "discount_spec" ∧
+    prefixed "observation_spec." (obsSpec ⟨7, 2, 11, false, true, 0⟩ 3 2 3) = declared "spec-only-lbf-7x3x2-l3" "observation_spec." ∧
+    [("action_spec", actionSpec 3)] = declared "spec-only-lbf-7x3x2-l3" "action_spec" ∧
+    [("reward_spec", rewardSpecN 3)] = declared "spec-only-lbf-7x3x2-l3" "reward_spec" ∧
+    [("discount_spec", discountSpecN 3)] = declared "spec-only-lbf-7x3x2-l3" "discount_spec" ∧
+    prefixed "observation_spec." (obsSpec ⟨6, 3, 9, true, true, 0⟩ 2 1 4) = declared "spec-only-lbf-grid-6x2x1-l4" "observation_spec." ∧
+    [("action_spec", actionSpec 2)] = declared "spec-only-lbf-grid-6x2x1-l4" "action_spec" ∧
+    [("reward_spec", rewardSpecN 2)] = declared "spec-only-lbf-grid-6x2x1-l4" "reward_spec" ∧
+    [("discount_spec", discountSpecN 2)] = declared "spec-only-lbf-grid-6x2x1-l4" "discount_spec" := by
+  refine ⟨by decide +kernel, by decide +kernel, by decide +kernel, by decide +kernel, by decide +kernel, by decide +kernel,
+    by decide +kernel, by decide +kernel, by decide +kernel, by decide +kernel, by decide +kernel, by decide +kernel,
+    by decide +kernel, by decide +kernel, by decide +kernel, by decide +kernel⟩
 
 /-- the invariant behind the membership theorems (`BInv` plus the entity counts and a non-negative counter) is established
 by the generator for EVERY valid draw and preserved by EVERY in-spec joint action (one entry `< 6` per agent; legal or not,
@@ -587,7 +607,10 @@ theorem lbf_rollout_obs_valid (cfg : Cfg) (A F L : Nat) (hA : 0 < A) (s0 : State
 
 /-- what membership means: `validate` accepts an observation ONLY IF the view has the declared shape of the configured
 observer, every entry lies between the observer's minimum (−1 vector, 0 grid) and `max(A·L, L, grid_size)`, the mask is
-`(A, 6)` and the counter lies in `[0, time_limit]` -/
+`(A, 6)` and the counter lies in `[0, time_limit]`  CAVEAT (audits r4 #7, r5 #5, r6 #5): for every field that is a nested list, `toNValue` reads the widths off the FIRST row of the
+nested list, so the shape conjuncts here mean "row count, length of the first row, total number of cells" — a ragged value with the right total can be a
+member, and nothing is concluded about the later rows.  Rectangularity is part of the invariant (`SpecInv` / `Shaped` / `Rect…`) under which the
+forward theorems (`…_reset_obs_valid`, `…_step_obs_valid`, `…_along`) are proved, i.e. it holds of every EMITTED observation. -/
 theorem lbf_obs_valid_only (cfg : Cfg) (A F L : Nat) (o : Obs) (h : (obsSpec cfg A F L).valid (toNValue o) = true) :
     (viewArr o.view).shape = (if cfg.gridObs then [A, 3, 2 * cfg.fov + 1, 2 * cfg.fov + 1] else [A, 3 * (A + F)]) ∧
     (∀ x ∈ viewInts o.view, (if cfg.gridObs then 0 else -1) ≤ x ∧ x ≤ specMax cfg A L) ∧
@@ -638,3 +661,46 @@ theorem lbf_action_spec_iff (A : Nat) (as : List Int) :
     (actionSpec A).valid (actionArr as) = true ↔ as.length = A ∧ ∀ a ∈ as, 0 ≤ a ∧ a < 6 :=
   actionSpecN_valid_iff A 6 as
 end Props.C01
+
+namespace Props.C08
+/-- C08 FROM THE GENERATOR (audit r6 #10): `lbf_return_is_one` with its hypotheses on the start state (food levels ≥ 1, some food,
+nothing eaten yet) discharged by `RandomGenerator` — for every generator configuration with at least one food item, EVERY valid
+draw, and every play of joint actions of the right length that ends with all food collected, the rewards handed out (all agents,
+all steps; normalised, no penalty) add up to exactly one -/
+theorem lbf_generated_return_is_one (cfg : Cfg) (hn : cfg.normalize = true) (hp : cfg.penalty = 0) (gc : GenCfg)
+    (hF : 0 < gc.numFood) (d : GenDraw) (hd : validDraw gc d = true) (as : List (List Int))
+    (hlen : ∀ a ∈ as, a.length = gc.numAgents)
+    (hend : (finalState cfg (generate gc d) as).foods.all (fun f => f.eaten) = true) :
+    teamReturn cfg (generate gc d) as = 1 := by
+  refine Props.C08.lbf_return_is_one cfg hn hp _ as (gen_wf gc d hd).2.2 ?_ ?_ (gen_fresh_start gc d).2.2 hend
+  · intro h
+    have := gen_foods_length gc d
+    rw [h] at this; simp at this; omega
+  · intro a ha; rw [gen_agents_length]; exact hlen a ha
+end Props.C08
+
+namespace Props.C04
+/-- the reaction of `step` ITSELF to a move action (audit r6 #6; `lbf_step_agrees` is about `simulate_agent_movement` BEFORE
+`fix_collisions`, which reverts a legal move when two agents want the same cell): for every well-formed state, every in-spec joint
+action and every agent `i` submitting a move (1..4), after the step the agent stands on the cell it asked for IF AND ONLY IF the
+move is legal by the rules AND no other agent's target (`targets`: the cell each agent wants to enter, its own cell when it
+stays or its move is illegal) is that cell -/
+theorem lbf_step_moves_iff_legal (cfg : Cfg) (s : State) (hw : WF s) (as : List Nat)
+    (hlen : as.length = s.agents.length) (has : ∀ a ∈ as, a < 6) (i : Nat) (hi : i < s.agents.length)
+    (hm : 1 ≤ as[i]'(by omega) ∧ as[i]'(by omega) ≤ 4) :
+    ∃ h : i < (step cfg s (as.map Int.ofNat)).1.agents.length,
+      (((step cfg s (as.map Int.ofNat)).1.agents[i]).pos = addP s.agents[i].pos (dir (as[i]'(by omega))) ↔
+        (legal cfg.gridSize s i (as[i]'(by omega)) ∧
+         ¬ ∃ u ∈ (targets cfg.gridSize s as).eraseIdx i, u = addP s.agents[i].pos (dir (as[i]'(by omega))))) :=
+  LBF.step_moves_iff_legal cfg s hw as hlen has i hi hm
+
+/-- both outcomes occur for LEGAL moves: three agents on a 5 × 5 grid; agents 0 (right) and 1 (left) both want cell (1, 2) — both
+moves are legal, neither happens; agent 2 (down, onto a free cell nobody else wants) moves -/
+example :
+    let s : State := ⟨[⟨0, (1, 1), 1, false⟩, ⟨1, (1, 3), 2, false⟩, ⟨2, (0, 2), 1, false⟩], [⟨0, (3, 3), 3, false⟩], 0⟩
+    let cfg : Cfg := ⟨5, 1, 7, false, true, 0⟩
+    WF s ∧ legal 5 s 0 4 ∧ legal 5 s 1 3 ∧
+    ((step cfg s [4, 3, 0]).1.agents.map (·.pos)) = [(1, 1), (1, 3), (0, 2)] ∧
+    ((step cfg s [4, 0, 0]).1.agents.map (·.pos)) = [(1, 2), (1, 3), (0, 2)] := by decide
+end Props.C04
+
